@@ -1,5 +1,6 @@
 """C12 -- vertex labels are opaque."""
-import gen, vf, oracles
+import os
+import gen, vf, oracles, files, cli
 
 
 def relabel_case(rng, line, meta, cid2):
@@ -75,6 +76,58 @@ def run(ctx):
                         break
             if bad:
                 ctx.violation('relabel', bad, {'case': cases[2 * pairs.index((a, b, mp, meta, dst))], 'relabelled_case': cases[2 * pairs.index((a, b, mp, meta, dst)) + 1], 'map': mp})
-    ctx.oracle.update({'evaluations': n_eval, 'distinct_nontrivial': len(keys),
+    # ---- the same through the command line front end (labels are read from the adjacency file)
+    wd = vf.workdir()
+    nb = 0
+    for k in range(ctx.budget(8, 150)):
+        sub = rng.fork('b%d' % k)
+        e = cli.int_recs(sub, nmax=5, lmax=2, recmax=8)
+        labels = gen.first_appearance(e['recs'])
+        kind = sub.below(4)
+        if kind == 0:
+            mp = {x: str((1 << 53) + 1 + 2 * i) for i, x in enumerate(labels)}            # above 2^53, odd: not representable as double
+        elif kind == 1:
+            mp = {x: str(10 ** 18 + 7 * i + 1) for i, x in enumerate(labels)}
+        elif kind == 2:
+            mp = {x: str((1 << 64) - 1 - i) for i, x in enumerate(labels)}                 # order-reversing, at the top of the range
+        else:
+            mp = {x: str(1000003 * (len(labels) - i) + 17) for i, x in enumerate(labels)}
+        recs2 = [(mp[s_], mp[t_], ws) for s_, t_, ws in e['recs']]
+        d = os.path.join(wd, 'rel%d' % k)
+        os.makedirs(d)
+        open(os.path.join(d, 'a.dat'), 'wb').write(files.render_adjacency(sub, e['recs'], 'plain')[0])
+        open(os.path.join(d, 'b.dat'), 'wb').write(files.render_adjacency(sub, recs2, 'plain')[0])
+        args = ['--k', str(sub.rint(2, 3)), '--s', str(sub.below(1000)), '--maxit', '12', '--r', '2'] + (['--undirected'] if sub.chance(0.5) else []) + (['--assortative'] if sub.chance(0.5) else [])
+        rc1, o1 = vf.run_cli(ctx.bdir, ['--a', 'a.dat', '--o', 'oa'] + args, d)
+        rc2, o2 = vf.run_cli(ctx.bdir, ['--a', 'b.dat', '--o', 'ob'] + args, d)
+        nb += 1
+        n_eval += 1
+        keys.add(('cli', kind))
+        fa, fb = files.read_result_files(os.path.join(d, 'oa')), files.read_result_files(os.path.join(d, 'ob'))
+        bad = None
+        if (rc1 == 0) != (rc2 == 0):
+            bad = 'one of the two runs fails (exit %s vs %s)' % (rc1, rc2)
+        elif rc1 == 0:
+            for name in fa:
+                ra, rb = fa[name], fb.get(name)
+                if rb is None or len(ra) != len(rb):
+                    bad = '%s differs in length' % name
+                    break
+                for x, y in zip(ra, rb):
+                    if name in ('u_out.dat', 'v_out.dat') and x and x[0] != '#':
+                        if mp.get(x[0]) != y[0] or x[1:] != y[1:]:
+                            bad = '%s: row %s became %s' % (name, ' '.join(x), ' '.join(y))
+                            break
+                    elif name == 'run_info.dat' and x[:2] == ['#', 'Duration']:
+                        continue
+                    elif x != y:
+                        bad = '%s: %s vs %s' % (name, ' '.join(x), ' '.join(y))
+                        break
+                if bad:
+                    break
+        if bad:
+            ctx.violation('relabel-cli', 'relabelling the vertices of the adjacency file changes the command line\'s results: ' + bad,
+                          {'args': args, 'map': mp, 'file': open(os.path.join(d, 'a.dat')).read(), 'relabelled_file': open(os.path.join(d, 'b.dat')).read()})
+    ctx.oracle.update({'evaluations': n_eval, 'distinct_nontrivial': len(keys), 'binary_pairs': nb,
                        'rule': 'pairs of whole implementation runs (all 8 variants) under an injective relabelling: order-reversing, sparse/huge, negative, strings, across label types (size_t <-> string, long <-> long); bit equality of u, v, affinity, report and mapped labels. distinct = (source type, target type, variant)'})
     ctx.samples = [{'case': cases[0][:300], 'relabelled': cases[1][:300]}]
